@@ -26,7 +26,7 @@ RULE = (
     "entries must not change any reported function/gradient/weight/flag; a memoizing evaluator's returned objects are "
     "byte-identical before/after every call; an evaluator handing out read-only views of buffers it refills on the next "
     "call must not change any delivered result; delivered results are read-only, share no memory with evaluator arrays and "
-    "earlier results are unchanged by later calls. Every sequence is non-trivial."
+    "earlier results are unchanged by later calls. Two single instances beyond the enumerated shapes: 8 objectives + 8 constraints with finite values of +-1e308, and 130 perturbations (labels complete, nothing flagged as failed). Every sequence is non-trivial."
 )
 ASSUMPTIONS = [
     "per-realization raw values of inactive entries are excluded from the garbage differential (they ARE the garbage)",
@@ -339,8 +339,59 @@ def sequences(depth: int) -> list[tuple[tuple[str, int], ...]]:
     return out
 
 
+def judge_wide(case: dict[str, Any]) -> Judgement:
+    """Shapes beyond the enumerated ones (one instance each): many functions with huge finite values of both signs, and
+    more perturbations than a small integer type holds. Labels complete and correct; finite values are never failures."""
+    from ropt.ensemble_evaluator import EnsembleEvaluator
+    from ropt.results import FunctionResults, GradientResults
+
+    j = Judgement()
+    kind = case["kind"]
+    n_obj, n_con, R, P = (8, 8, 2, 2) if kind == "many-functions" else (1, 0, 1, 130)
+    big = [1e308, 1e308, -1e308, -1e308, 1.0, 2.0, 3.0, 4.0]
+    config: dict[str, Any] = {
+        "variables": {"initial_values": [0.5]},
+        "realizations": {"weights": [1.0] * R, "realization_min_success": 0},
+        "objectives": {"weights": [1.0] * n_obj},
+        "gradient": {"number_of_perturbations": P, "perturbation_magnitudes": 0.01, "perturbation_min_success": 1},
+    }
+    if n_con:
+        config["nonlinear_constraints"] = {"lower_bounds": [-np.inf] * n_con, "upper_bounds": [np.inf] * n_con}
+
+    def fn(x: np.ndarray, r: int) -> list[float]:
+        if kind == "many-functions":
+            return (big if r == 1 else [float(k) + float(x[0]) for k in range(8)]) + (big[::-1] if r == 0 else [float(-k) for k in range(8)])
+        return [float(x[0]) * 2.0]
+
+    manager, _ = make_manager()
+    evaluator = TableEvaluator(fn, n_obj, n_con)
+    try:
+        with np.errstate(all="ignore"):
+            results = EnsembleEvaluator(validate(config), None, evaluator, manager).calculate(np.array([0.5]), compute_functions=True, compute_gradients=True)
+    except Exception as exc:  # noqa: BLE001
+        j.fail(f"wide:calculate-raised:{type(exc).__name__}", message=str(exc)[:200], kind=kind)
+        return j
+    j.transitions = 1
+    j.outcome = f"wide:{kind}"
+    call = evaluator.calls[0]
+    labels = sorted((int(call.realizations[i]), -1 if call.perturbations is None else int(call.perturbations[i])) for i in range(call.variables.shape[0]))
+    expected = sorted([(r, -1) for r in range(R)] + [(r, p) for r in range(R) for p in range(P)])
+    if labels != expected:
+        wrong = [lab for lab in labels if lab not in expected][:6]
+        j.fail("wide:request-labels-not-the-full-product-once", kind=kind, rows=len(labels), unexpected=wrong)
+    for item in results:
+        if isinstance(item, (FunctionResults, GradientResults)) and np.any(item.realizations.failed_realizations):
+            j.fail("wide:finite-values-flagged-as-failure", kind=kind, result=type(item).__name__, failed=item.realizations.failed_realizations)
+        if isinstance(item, FunctionResults) and kind == "many-functions":
+            got = np.concatenate([np.asarray(item.evaluations.objectives), np.asarray(item.evaluations.constraints)], axis=1)
+            want = np.array([fn(np.array([0.5]), r) for r in range(R)])
+            if not np.array_equal(got, want):
+                j.fail("wide:reported-value-not-the-returned-value", kind=kind)
+    return j
+
+
 def shards(tier: str, seed: int) -> list[dict[str, Any]]:
-    out = []
+    out = [{"wide": True, "tier": tier}]
     vs = (2,) if tier == "quick" else (1, 2)
     for R in (2, 3):
         for P in (1, 2):
@@ -359,6 +410,11 @@ def shards(tier: str, seed: int) -> list[dict[str, Any]]:
 
 def run_shard(shard: dict[str, Any]) -> core.ShardResult:
     rec = Recorder(shard)
+    if shard.get("wide"):
+        for kind in ("many-functions", "many-perturbations"):
+            case = {"wide": True, "kind": kind}
+            rec.add(("wide", kind), case, judge_wide(case))
+        return rec.finish()
     depth = 3
     if shard["tier"] == "quick" and (shard["R"] == 3 or shard["fail"] or shard["transforms"] in ("variables", "objectives", "constraints")):
         depth = 2
@@ -371,6 +427,8 @@ def run_shard(shard: dict[str, Any]) -> core.ShardResult:
 
 
 def run_case(case: dict[str, Any]) -> Judgement:
+    if case.get("wide"):
+        return judge_wide(case)
     return judge(case)
 
 
